@@ -267,38 +267,36 @@ def _canon(r):
 def _r3(ck: Checker, prog: Program):
     f = prog.func("timeseries.TimeSeries.trim")
     fq = f.qualname
+    from ..pathtable import PathTable, literals, same_rel, negate
     T = Translator()
-    from ..expr import forward_substitute
-    top = [st for st in f.node.body if isinstance(st, (ast.Assign, ast.AugAssign))]
-    forward_substitute(top, T)
     st_t, en_t = T.sym("start_time"), T.sym("end_time")
     time_call = sp.Function("time")(T.sym("self"))
-    cur = T.env.get("current_time")
-    if cur is None or not equal(cur, time_call):
-        ck.violation("C18.R3", fq, "current_time", f"the time axis used by trim is `{cur}`, not self.time()", loc=f.loc())
-    else:
-        ck.ok("C18.R3", fq, "current_time = self.time()", nontrivial=False)
-    si, ei = T.env.get("start_index"), T.env.get("end_index")
+    leaves = PathTable(prog, f.module).leaves(f.node.body)
+    succ = [l for l in leaves if l.exit in ("fall", "return")]
+    if not succ:
+        raise AnalysisError(f"{fq}: no path reaches the end of trim")
     want_s = sp.Function("argmin")(sp.Abs(time_call - st_t))
     want_e = sp.Function("argmin")(sp.Abs(time_call - en_t))
-    for nm, got, want in (("start_index", si, want_s), ("end_index", ei, want_e)):
-        if got is not None and (equal(got, want) or equal(got, want.subs(sp.Abs(want.args[0].args[0]), sp.Abs(-want.args[0].args[0])))):
-            ck.ok("C18.R3", fq, f"{nm} = argmin|t - x|", detail=str(got))
+    AMP = T.sym("self.amplitude")
+    for l in succ:
+        stores = [e for e in l.events if e[0] == "store" and e[1] == "self.amplitude"]
+        if len(stores) != 1:
+            ck.violation("C18.R3", fq, "kept samples", f"a successful trim stores self.amplitude {len(stores)} time(s)", loc=f.loc())
+            continue
+        v, st = stores[0][2], stores[0][3]
+        gi, sl = sp.Function("getitem"), sp.Function("slice")
+        lo = hi = None
+        if v.func == gi and v.args[0] == AMP and v.args[1].func == sl and v.args[1].args[2] == sp.Symbol("None"):
+            lo, hi = v.args[1].args[0], v.args[1].args[1]
+        if lo is None:
+            ck.violation("C18.R3", fq, norm_key(st), f"trim stores {v}, not a slice of self.amplitude", loc=f.loc(st))
+            continue
+        if equal(lo, want_s) and equal(hi, want_e + 1):
+            ck.ok("C18.R3", fq, "keeps [argmin|t - start_time|, argmin|t - end_time| + 1) with t = self.time()", detail=str(v))
         else:
-            ck.violation("C18.R3", fq, nm, f"`{nm}` is {got}, not the index of the sample nearest to the requested time ({want})", loc=f.loc())
-    # the slice
-    sl = [st for st in f.node.body if isinstance(st, ast.Assign) and isinstance(st.targets[0], ast.Attribute) and st.targets[0].attr == "amplitude"]
-    if len(sl) != 1 or not isinstance(sl[0].value, ast.Subscript) or not isinstance(sl[0].value.slice, ast.Slice):
-        raise AnalysisError(f"{fq}: `self.amplitude = self.amplitude[a:b]` not found")
-    s = sl[0].value
-    lo = T.tr(s.slice.lower) if s.slice.lower is not None else None
-    hi = T.tr(s.slice.upper) if s.slice.upper is not None else None
-    base_ok = unparse(s.value) == "self.amplitude" and s.slice.step is None
-    if base_ok and lo is not None and hi is not None and si is not None and ei is not None and equal(lo, si) and equal(hi, ei + 1):
-        ck.ok("C18.R3", fq, norm_key(sl[0]), detail="keeps [start_index, end_index + 1)")
-    else:
-        ck.violation("C18.R3", fq, norm_key(sl[0]), f"kept slice is [{lo} : {hi}] of {unparse(s.value)}; expected [start_index : end_index + 1] of self.amplitude",
-                     loc=f.loc(sl[0]))
+            ck.violation("C18.R3", fq, "kept samples",
+                         f"kept slice is [{lo} : {hi}] of self.amplitude; expected the samples nearest to start_time .. end_time inclusive "
+                         f"([{want_s} : {want_e} + 1])", loc=f.loc(st))
     # the time axis itself
     tm = prog.func("timeseries.TimeSeries.time")
     r = [x for x in own_nodes(tm.node) if isinstance(x, ast.Return)]
@@ -309,23 +307,20 @@ def _r3(ck: Checker, prog: Program):
         ck.ok("C18.R3", tm.qualname, norm_key(r[0]), detail="t_i = i * dt")
     else:
         ck.violation("C18.R3", tm.qualname, "time axis", f"time() returns {tv}, expected arange(n_samples)*dt", loc=tm.loc())
-    # refusals
-    refusals = []
-    for st in f.node.body:
-        if isinstance(st, ast.If) and any(isinstance(b, ast.Raise) for b in st.body):
-            refusals.append(_canon(T.tr(st.test)))
+    # refusals: completing a trim implies 0 <= start_time < end_time <= t[-1]
     last = sp.Function("getitem")(time_call, sp.Integer(-1))
     wants = {
-        "start before the record": [sp.Gt(sp.Integer(0), st_t, evaluate=False)],
-        "start not before end": [sp.Ge(st_t, en_t, evaluate=False)],
-        "end after the record": [sp.Gt(en_t, last, evaluate=False)],
+        "start before the record": sp.Gt(sp.Integer(0), st_t, evaluate=False),
+        "start not before end": sp.Ge(st_t, en_t, evaluate=False),
+        "end after the record": sp.Gt(en_t, last, evaluate=False),
     }
-    for name, alts in wants.items():
-        hit = any(type(r) is type(w) and equal(r.lhs, w.lhs) and equal(r.rhs, w.rhs) for r in refusals for w in alts)
+    for name, w in wants.items():
+        hit = all(any(same_rel(x, negate(w)) for x in literals(l)) for l in succ) and \
+            any(l.exit == "raise" and any(same_rel(x, w) for x in literals(l)) for l in leaves)
         if hit:
             ck.ok("C18.R3", fq, f"refusal: {name}")
         else:
-            ck.violation("C18.R3", fq, f"refusal: {name}", f"no raising guard for `{name}` (guards found: {refusals})", loc=f.loc())
+            ck.violation("C18.R3", fq, f"refusal: {name}", f"a trim can complete although `{w}` (no raising guard on every path)", loc=f.loc())
     # three components, same arguments
     g = prog.func("seismic_recording_3c.SeismicRecording3C.trim")
     loops = [st for st in g.node.body if isinstance(st, ast.For)]
